@@ -10,12 +10,22 @@ service / directory tree (files AND directories, B2 version-stack depths).  Also
 sequences (`store.s3loop`, `store.b2loop`; conformant and non-conformant, any element order), and the pathlib / os.path model
 (`store.pathlib`).
 
+Time: every history runs on ONE long-lived adapter object per backend under a generated *clock schedule* (`gen_clock`): the wall
+clock the adapter reads (`datetime` / `time` names of the backend modules, patched) moves between the calls and, optionally, at
+every reading — within one UTC day, across midnight / month end / leap day / year end at a chosen operation, inside one call
+(a multi-page listing), over hours and days, with a client clock that is a bit off and jitters (steps back) — while the fake
+services keep their own clock: S3 verifies `x-amz-date` against it (15-minute window) next to the full SigV4 check, B2 ages
+tokens (24 h).  The Lean S3 model runs the same history *with the clock readings* (`S3.runT`, `s3_timed_history_refines`).
+
 Direct oracle: the property's own statement — every return value of every real adapter equals what a plain Python dict gives.
 Main histories stay inside the region the theorems cover (see `*_ok` below, mirrored from the hypotheses in
 Properties/C13.lean); *frontier probes* exercise each excluded input class on the real code and report what they find with a
 stable `sig` (these are the forced hypotheses of the `_partial` theorems).
 """
 import asyncio
+import contextlib
+import datetime as _dt
+import importlib
 import io
 import json
 import os
@@ -23,6 +33,7 @@ import re
 import shutil
 import sys
 import time
+import types
 
 from ..common import LEAN, WORK, REPO, rng_for
 from ..impl import fake_b2, fake_s3, localfs
@@ -166,6 +177,174 @@ def gen_history(r, universe, prefixes, n_ops, big):
     return ops
 
 
+# ------------------------------------------------------------------------------------------------ the wall clock
+EPOCH = _dt.datetime(1970, 1, 1)
+S3_SKEW = 900                                  # seconds; the service's window for x-amz-date (S3: 15 minutes)
+B2_TOKEN_TTL = 86400                           # seconds; lifetime of a B2 authorisation token (24 hours)
+LOCAL_OFFSET = _dt.timedelta(hours=9)          # the machine's local zone is not UTC (what a naive `datetime.now()` would show)
+CLOCK_MODULES = ('replicat.backends.s3c', 'replicat.backends.s3', 'replicat.backends.b2')
+
+
+def epoch_s(t):
+    return int((t - EPOCH).total_seconds())
+
+
+class HClock:
+    """The clocks of one history.  `t` is true time = what the service's clock shows.  The client's clock shows
+    `t + offset + jitter` (offset per history, jitter per operation) and true time moves on by `step` seconds at every reading
+    by the client.  `at(op)` moves true time to `start + op['at']` (never backwards) before an operation."""
+
+    def __init__(self, spec):
+        self.spec = spec
+        self.start = _dt.datetime.fromisoformat(spec['start'])
+        self.t = self.start
+        self.step = _dt.timedelta(seconds=spec.get('step', 0))
+        self.offset = _dt.timedelta(seconds=spec.get('offset', 0))
+        self.jit = _dt.timedelta(0)
+        self.reads = 0
+        self.op_times = []      # (client, server) in epoch seconds at the start of every operation
+
+    def at(self, op):
+        self.t = max(self.t, self.start + _dt.timedelta(seconds=op.get('at', 0)))
+        self.jit = _dt.timedelta(seconds=op.get('jit', 0))
+        self.op_times.append((epoch_s(self.t + self.offset + self.jit), epoch_s(self.t)))
+
+    def client_read(self):
+        t = self.t + self.offset + self.jit
+        self.t = self.t + self.step
+        self.reads += 1
+        return t
+
+    def server_now(self):
+        return self.t
+
+
+def _fake_datetime_class(clock):
+    class FakeDateTime(_dt.datetime):
+        @classmethod
+        def utcnow(cls):
+            t = clock.client_read()
+            return cls(t.year, t.month, t.day, t.hour, t.minute, t.second, t.microsecond)
+
+        @classmethod
+        def now(cls, tz=None):
+            t = clock.client_read()
+            if tz is None:
+                t = t + LOCAL_OFFSET
+                return cls(t.year, t.month, t.day, t.hour, t.minute, t.second, t.microsecond)
+            t = t.replace(tzinfo=_dt.timezone.utc).astimezone(tz)
+            return cls(t.year, t.month, t.day, t.hour, t.minute, t.second, t.microsecond, tzinfo=t.tzinfo)
+
+        @classmethod
+        def today(cls):
+            return cls.now()
+    return FakeDateTime
+
+
+@contextlib.contextmanager
+def patched_clock(clock):
+    """Every way the backend modules can name the wall clock is redirected to `clock`: the `datetime` class or module, the `time`
+    module, or `time` / `time_ns` / `gmtime` / `localtime` / `strftime` imported from it.  (How the source reads the clock is its
+    own business — only the reading is controlled.)  Restored on exit."""
+    if clock is None:
+        yield
+        return
+    fdt = _fake_datetime_class(clock)
+    now_s = lambda: (clock.client_read() - EPOCH).total_seconds()
+
+    def f_time():
+        return now_s()
+
+    def f_time_ns():
+        return int(now_s() * 1e9)
+
+    def f_gmtime(secs=None):
+        return time.gmtime(now_s() if secs is None else secs)
+
+    def f_localtime(secs=None):
+        return time.gmtime((now_s() if secs is None else secs) + LOCAL_OFFSET.total_seconds())
+
+    def f_strftime(fmt, tt=None):
+        return time.strftime(fmt, f_localtime() if tt is None else tt)
+    dt_shim = types.ModuleType('datetime')
+    dt_shim.__dict__.update({k: v for k, v in vars(_dt).items() if not k.startswith('__')})
+    dt_shim.datetime = fdt
+    time_shim = types.ModuleType('time')
+    time_shim.__dict__.update({k: v for k, v in vars(time).items() if not k.startswith('__')})
+    time_shim.__dict__.update(time=f_time, time_ns=f_time_ns, gmtime=f_gmtime, localtime=f_localtime, strftime=f_strftime)
+    by_identity = [(_dt.datetime, fdt), (_dt, dt_shim), (time, time_shim), (time.time, f_time), (time.time_ns, f_time_ns),
+                   (time.gmtime, f_gmtime), (time.localtime, f_localtime), (time.strftime, f_strftime)]
+    saved = []
+    try:
+        for name in CLOCK_MODULES:
+            try:
+                mod = importlib.import_module(name)
+            except ImportError:
+                continue
+            for attr, val in list(vars(mod).items()):
+                for orig, repl in by_identity:
+                    if val is orig:
+                        saved.append((mod, attr, val))
+                        setattr(mod, attr, repl)
+        yield
+    finally:
+        for mod, attr, val in saved:
+            setattr(mod, attr, val)
+
+
+BOUNDARIES = {
+    'midnight': lambda r: _dt.datetime(r.randint(2000, 2099), r.randint(1, 12), r.randint(2, 28)),
+    'month-end': lambda r: _dt.datetime(r.randint(2000, 2099), r.randint(2, 12), 1),
+    # 28 Feb → 29 Feb and 29 Feb → 1 Mar in leap years, 28 Feb → 1 Mar otherwise (2100 is not a leap year)
+    'leap-day': lambda r: r.choice([_dt.datetime(y, 2, 29) for y in (2000, 2024, 2028, 2096)] + [_dt.datetime(y, 3, 1) for y in (2000, 2024, 2025, 2100)]),
+    'year-end': lambda r: _dt.datetime(r.randint(2001, 2100), 1, 1),
+}
+CLOCK_CLASSES = [('same-day', 18), ('midnight', 26), ('month-end', 6), ('leap-day', 6), ('year-end', 8), ('within-call', 12), ('long-run', 10),
+                 ('client-clock-off', 14)]
+
+
+def gen_clock(r, n_ops):
+    """(clock spec, per-operation [(at, jit)]).  `at` = seconds of true time since the start of the history at which the operation
+    begins, `jit` = what the client's clock is off by (beyond the history's offset) during that operation.  All whole seconds."""
+    cls = r.choices([c for c, _ in CLOCK_CLASSES], [w for _, w in CLOCK_CLASSES])[0]
+    step, offset = 0, 0
+    jits = [0] * n_ops
+    small = lambda: r.choice([0, 0, 0, 1, 1, 2, 7, 20])
+    if cls == 'same-day':
+        gaps = [small() for _ in range(n_ops)]
+        start = _dt.datetime(r.randint(2000, 2099), r.randint(1, 12), r.randint(1, 28), r.randint(0, 22), r.randint(0, 59), r.randint(0, 59))
+        if r.random() < 0.3:
+            step = 1
+    elif cls == 'long-run':
+        gaps = [r.choice([0, 1, 600, 3600, 7 * 3600, 13 * 3600, 25 * 3600]) for _ in range(n_ops)]
+        start = _dt.datetime(r.randint(2000, 2099), r.randint(1, 12), r.randint(1, 28), r.randint(0, 23), r.randint(0, 59), r.randint(0, 59))
+    else:
+        kind = cls if cls in BOUNDARIES else r.choice(list(BOUNDARIES))
+        b = BOUNDARIES[kind](r)
+        gaps = [small() for _ in range(n_ops)]
+        if cls == 'within-call':
+            # true time moves at every reading of the clock: the date changes between two requests of one call
+            step = r.choice([1, 2, 5, 30])
+            gaps = [r.choice([0, 0, 1]) for _ in range(n_ops)]
+            start = b - _dt.timedelta(seconds=step * r.randint(0, 12) + r.choice([0, 1]))
+        else:
+            # the date changes right before operation k (k ≥ 1: at least one call is made on the old date)
+            k = min(r.randint(1, max(1, n_ops - 1)), n_ops - 1)
+            late = r.choice([0, 0, 0, 1])                 # operation k begins at 00:00:00 or 00:00:01
+            gaps[k] = max(gaps[k], 1 + late)              # … and operation k - 1 before midnight
+            start = b - _dt.timedelta(seconds=sum(gaps[:k + 1]) - late)
+            if r.random() < 0.25:
+                step = 1
+        if cls == 'client-clock-off':
+            offset = r.choice([-1, 1]) * r.choice([1, 3, 30, 299, 600])
+            jits = [r.randint(-5, 5) for _ in range(n_ops)]
+    ats, acc = [], 0
+    for g in gaps:
+        acc += g
+        ats.append(acc)
+    return {'class': cls, 'start': start.isoformat(), 'step': step, 'offset': offset}, list(zip(ats, jits))
+
+
 # ------------------------------------------------------------------------------------------------ the dict model (direct oracle)
 def dict_step(m, op):
     o = op['op']
@@ -279,10 +458,10 @@ async def _one_async(backend, op, count_list_requests):
     raise ValueError(o)
 
 
-async def run_async(backend, ops, count_list_requests, new_op=lambda: None):
+async def run_async(backend, ops, count_list_requests, new_op=lambda op: None):
     rets = []
     for op in ops:
-        new_op()
+        new_op(op)
         try:
             rets.append(await asyncio.wait_for(_one_async(backend, op, count_list_requests), timeout=60))
         except asyncio.TimeoutError:
@@ -307,36 +486,77 @@ def make_watchdog(limit=60):
             return Watchdog('more than %d requests in one call' % limit)
         return None
 
-    def reset():
+    def reset(op=None):
         n[0] = 0
     return fault, reset
 
 
-def real_s3(ops, ps, variant='s3c'):
+S3_ARGS = dict(key_id='AKIDEXAMPLE', access_key='wJalrXUtnFEMI/K7MDENG+bPxRfiCYEXAMPLEKEY', region='eu-west-1')
+
+
+def real_s3(ops, ps, variant='s3c', clock=None):
+    """one adapter object for the whole history.  `clock` = clock spec (see `gen_clock`; the operations then carry `at` / `jit`) or None
+    = the machine's clock and a service that does not look at the time."""
     from replicat.backends.s3c import S3Compatible
     from replicat.backends.s3 import S3
+    hc = HClock(clock) if clock is not None else None
+    with patched_clock(hc):
+        rets, info = _real_s3(S3, S3Compatible, ops, ps, variant, hc)
+    if hc is not None and hc.reads == 0 and info['requests'] + info['rejected'] > 0:
+        # requests were sent but the controlled clock was never read: the adapter gets the time in a way `patched_clock` does not
+        # cover.  Not a finding — run the history on the machine's clock (as before clocks were generated) and say so.
+        rets, info = _real_s3(S3, S3Compatible, ops, ps, variant, None)
+        info['clock_not_intercepted'] = True
+    return rets, info
+
+
+def _real_s3(S3, S3Compatible, ops, ps, variant, hc):
     if variant == 's3':
-        b = S3('bkt', key_id='AKIDEXAMPLE', access_key='wJalrXUtnFEMI/K7MDENG+bPxRfiCYEXAMPLEKEY', region='eu-west-1')
+        b = S3('bkt', **S3_ARGS)
         host = 's3.eu-west-1.amazonaws.com'
     else:
         host = 'objects.fake-s3.test'
-        b = S3Compatible('bkt', key_id='AKIDEXAMPLE', access_key='wJalrXUtnFEMI/K7MDENG+bPxRfiCYEXAMPLEKEY', region='eu-west-1', host=host)
+        b = S3Compatible('bkt', host=host, **S3_ARGS)
     fault, reset = make_watchdog()
-    f = fake_s3.FakeS3('bkt', 'AKIDEXAMPLE', 'wJalrXUtnFEMI/K7MDENG+bPxRfiCYEXAMPLEKEY', 'eu-west-1', host, page_size=ps, fault=fault)
+    f = fake_s3.FakeS3('bkt', S3_ARGS['key_id'], S3_ARGS['access_key'], S3_ARGS['region'], host, page_size=ps, fault=fault,
+                       clock=hc.server_now if hc is not None else None, max_skew=S3_SKEW)
     fake_s3.install(b, f)
-    rets = loop().run_until_complete(run_async(b, ops, lambda: sum(1 for e in f.log if e['op'] == 'list'), reset))
-    return rets, {'state': sorted([k, v.hex()] for k, v in f.objects.items()), 'sig_failures': f.sig_failures, 'requests': len(f.log)}
+    marks = []       # number of accepted requests before every operation
+
+    def new_op(op):
+        reset()
+        marks.append(len(f.scope_dates))
+        if hc is not None:
+            hc.at(op)
+    rets = loop().run_until_complete(run_async(b, ops, lambda: sum(1 for e in f.log if e['op'] == 'list'), new_op))
+    per_op = [f.scope_dates[a:z] for a, z in zip(marks, marks[1:] + [len(f.scope_dates)])]
+    days = [d for i, d in enumerate(f.scope_dates) if i == 0 or d != f.scope_dates[i - 1]]
+    return rets, {'state': sorted([k, v.hex()] for k, v in f.objects.items()), 'sig_failures': f.sig_failures, 'requests': len(f.log),
+                  'rejected': len(f.sig_failures) + len(f.time_failures), 'time_failures': f.time_failures,
+                  'date_changes': max(0, len(days) - 1), 'calls_spanning_a_date_change': sum(1 for x in per_op if len(set(x)) > 1),
+                  'requests_after_first_date_change': len(f.scope_dates) - f.scope_dates.count(f.scope_dates[0]) if f.scope_dates else 0,
+                  'times': list(hc.op_times) if hc is not None else None, 'clock_reads': hc.reads if hc is not None else 0,
+                  'clock_not_intercepted': False}
 
 
-def real_b2(ops, ps, token_uses=None, restricted=False):
+def real_b2(ops, ps, token_uses=None, restricted=False, clock=None):
+    """one adapter object for the whole history; with a clock spec the service ages its tokens (24 h) on the history's true time"""
     from replicat.backends.b2 import B2
-    b = B2('bkt', key_id='0012ab34cd56ef', application_key='K001secretsecretsecret')
-    fault, reset = make_watchdog()
-    f = fake_b2.FakeB2('bkt', '0012ab34cd56ef', 'K001secretsecretsecret', page_size=ps, token_uses=token_uses, restricted=restricted,
-                       other_buckets=[('f00dfeed', 'other-bucket')], fault=fault)
-    fake_b2.install(b, f)
-    rets = loop().run_until_complete(run_async(b, ops, lambda: sum(1 for e in f.log if e['api'] == 'b2_list_file_names'), reset))
-    return rets, {'state': sorted([k, v.hex()] for k, v in f.live().items()),
+    hc = HClock(clock) if clock is not None else None
+    with patched_clock(hc):
+        b = B2('bkt', key_id='0012ab34cd56ef', application_key='K001secretsecretsecret')
+        fault, reset = make_watchdog()
+        f = fake_b2.FakeB2('bkt', '0012ab34cd56ef', 'K001secretsecretsecret', page_size=ps, token_uses=token_uses, restricted=restricted,
+                           other_buckets=[('f00dfeed', 'other-bucket')], fault=fault,
+                           clock=hc.server_now if hc is not None else None, token_ttl=B2_TOKEN_TTL)
+        fake_b2.install(b, f)
+
+        def new_op(op):
+            reset()
+            if hc is not None:
+                hc.at(op)
+        rets = loop().run_until_complete(run_async(b, ops, lambda: sum(1 for e in f.log if e['api'] == 'b2_list_file_names'), new_op))
+    return rets, {'state': sorted([k, v.hex()] for k, v in f.live().items()), 'aged_out': f.n_aged_out,
                   'versions': sorted([k, len(v)] for k, v in f.versions.items()), 'requests': len(f.log), 'tokens': f.n_tokens}
 
 
@@ -407,6 +627,7 @@ class Ctx:
         self.out, self.drv = out, drv
         self.scratch = WORK / str(os.getpid()) / 'c13'
         self.n = 0
+        self.shrunk = set()
 
     def newdir(self):
         self.n += 1
@@ -421,8 +642,46 @@ def ask_history(drv, adapter, ops, **kw):
     return drv.ask(req)
 
 
-def check_adapter(ctx, label, adapter, ops, real_rets, real_info, model, replay, compare_requests=True):
-    """oracle (real vs dict) and tie (real vs Lean adapter model) for one adapter on its sub-history"""
+def describe_time(ops, i, info, clock):
+    """what the clocks showed at operation #i (for the text of a finding)"""
+    if clock is None or not info.get('times') or i is None or i >= len(info['times']):
+        return ''
+    iso = lambda s: (EPOCH + _dt.timedelta(seconds=s)).strftime('%Y-%m-%d %H:%M:%S')
+    c0 = info['times'][0][0]
+    c, s = info['times'][i]
+    why = (info.get('sig_failures') or info.get('time_failures') or [{}])[0].get('why', '').split('\n')[0].split(';')[0]
+    return (f' [one adapter object; clock schedule {clock["class"]!r}: its first call was made at {iso(c0)} UTC, this one at {iso(c)} UTC by the '
+            f"adapter's clock ({iso(s)} by the service's)" + (f'; the service said: {why}' if why else '') + ']')
+
+
+def shrink_history(ops, rerun, budget=80):
+    """greedy delta debugging on the operation list (the operations keep their `at`, so the clock schedule is preserved): drop every
+    operation without which some return value still differs from the map.  Returns (ops, failing index, expected, observed)."""
+    def failing(cand):
+        rets, _ = rerun(cand)
+        m = {}
+        exp = [dict_step(m, o) for o in cand]
+        got = [strip_req(x) for x in rets]
+        i = first_diff(exp, got)
+        return None if i is None or i >= len(cand) else (i, exp[i], got[i])
+    best, res = list(ops), None
+    changed = True
+    while changed and budget > 0:
+        changed = False
+        for k in range(len(best) - 1, -1, -1):
+            if budget <= 0 or len(best) <= 1:
+                break
+            cand = best[:k] + best[k + 1:]
+            budget -= 1
+            f = failing(cand)
+            if f is not None:
+                best, res, changed = cand, f, True
+    return (best,) + res if res is not None else None
+
+
+def check_adapter(ctx, label, adapter, ops, real_rets, real_info, model, replay, compare_requests=True, note=lambda i: '', rerun=None):
+    """oracle (real vs dict) and tie (real vs Lean adapter model) for one adapter on its sub-history; `rerun(ops) -> (rets, info)` lets a
+    failing history be minimised (once per signature)"""
     out = ctx.out
     # ---- direct oracle
     m = {}
@@ -432,9 +691,17 @@ def check_adapter(ctx, label, adapter, ops, real_rets, real_info, model, replay,
     ok = True
     if i is not None:
         ok = False
-        out.violation(f'{adapter}:{ops[i]["op"]}:differs-from-map',
-                      f'{label}: operation #{i} {short(ops[i], 160)} returned {short(got[i], 200)}; a plain map returns {short(exp[i], 200)}',
-                      dict(replay, adapter=adapter, ops=ops, failing_index=i, expected=exp[i], observed=got[i]))
+        sig = f'{adapter}:{ops[i]["op"]}:differs-from-map'
+        extra = {}
+        if rerun is not None and sig not in ctx.shrunk:
+            ctx.shrunk.add(sig)
+            sh = shrink_history(ops, rerun)
+            if sh is not None:
+                extra = {'minimised': {'ops': sh[0], 'failing_index': sh[1], 'expected': sh[2], 'observed': sh[3],
+                                       'note': 'same clock schedule and service configuration; replay with these ops in place of "ops"'}}
+        out.violation(sig,
+                      f'{label}: operation #{i} {short(ops[i], 160)} returned {short(got[i], 200)}; a plain map returns {short(exp[i], 200)}' + note(i),
+                      dict(replay, adapter=adapter, ops=ops, failing_index=i, expected=exp[i], observed=got[i], **extra))
     exp_state = sorted([k, v] for k, v in m.items())
     if ok and real_info['state'] != exp_state:
         ok = False
@@ -470,6 +737,32 @@ def check_adapter(ctx, label, adapter, ops, real_rets, real_info, model, replay,
     return ok
 
 
+def ask_s3(drv, ops, ps, info):
+    """the Lean S3 model on the same history; with the clock readings of every operation (`S3.runT`) when the run was clocked"""
+    if info.get('times') is None:
+        return ask_history(drv, 's3', ops, ps=ps)
+    timed = [dict(o, client=c, server=s) for o, (c, s) in zip(ops, info['times'])]
+    return ask_history(drv, 's3', timed, ps=ps, skew=S3_SKEW)
+
+
+def count_s3_time(out, info):
+    """input-distribution counters of the clock dimension, from what the service saw (credential-scope dates of accepted requests)"""
+    if info['clock_not_intercepted']:
+        out.count('clock:not-intercepted(adapter reads the time some other way; history run on the machine clock)')
+    if info['times'] is None:
+        out.count('s3:histories-on-the-machine-clock')
+        return
+    out.count('s3:clock-readings', info['clock_reads'])
+    if info['date_changes']:
+        out.count('s3:histories-crossing-a-utc-date-change-on-one-adapter-object')
+        out.count('s3:utc-date-changes-seen-by-the-service', info['date_changes'])
+        out.count('s3:requests-after-the-first-date-change', info['requests_after_first_date_change'])
+    else:
+        out.count('s3:histories-within-one-utc-date')
+    if info['calls_spanning_a_date_change']:
+        out.count('s3:calls-spanning-a-date-change(multi-request)', info['calls_spanning_a_date_change'])
+
+
 # ------------------------------------------------------------------------------------------------ main histories
 def quote_via_plus():
     return gen_flag('s3QueryQuoteVia', 'quote_plus') == 'quote_plus'
@@ -484,13 +777,16 @@ def main_histories(ctx, r, n_hist, n_big):
         prefixes = gen_prefixes(r, universe)
         n_ops = r.randint(4, 10) if big else r.randint(6, 26)
         ops = gen_history(r, universe, prefixes, n_ops, big)
+        clock, sched = gen_clock(r, len(ops))
+        for o, (at, jit) in zip(ops, sched):
+            o['at'], o['jit'] = at, jit
         ps = r.choice([1, 1, 2, 2, 3, 1000])
         spelling = r.choice([s for s in localfs.SPELLINGS if s not in localfs.DOT_SPELLINGS]) if r.random() < 0.8 else r.choice(localfs.DOT_SPELLINGS)
         token_uses = r.choice([None, None, 3, 7, 20])
         s3_variant = r.choice(['s3c', 's3c', 's3'])
         case = {'kind': 'history', 'universe': universe, 'n_ops': len(ops), 'page_size': ps, 'root_spelling': spelling, 'b2_token_uses': token_uses,
-                's3_variant': s3_variant, 'ops': [dict(o, data='<%d bytes>' % (len(o['data']) // 2)) if 'data' in o else o for o in ops][:30]}
-        replay = {'kind': 'history', 'page_size': ps, 'root_spelling': spelling, 'b2_token_uses': token_uses, 's3_variant': s3_variant}
+                's3_variant': s3_variant, 'clock': clock, 'ops': [dict(o, data='<%d bytes>' % (len(o['data']) // 2)) if 'data' in o else o for o in ops][:30]}
+        replay = {'kind': 'history', 'page_size': ps, 'root_spelling': spelling, 'b2_token_uses': token_uses, 's3_variant': s3_variant, 'clock': clock}
         # per adapter: the sub-history inside the region its theorems cover
         def sub(name_ok, prefix_ok):
             return [o for o in ops if (name_ok(o['name']) if 'name' in o else prefix_ok(o['prefix']))]
@@ -518,6 +814,9 @@ def main_histories(ctx, r, n_hist, n_big):
         out.count('root:' + spelling)
         out.count('objects:' + ('0-1' if n_live <= 1 else '2-3' if n_live <= 3 else '4-6' if n_live <= 6 else '7+'))
         out.count('b2_token_uses:%s' % token_uses)
+        out.count('clock:' + clock['class'])
+        if clock['step']:
+            out.count('clock:moves-at-every-reading')
         for o in ops:
             out.count('op:' + o['op'])
             if 'data' in o:
@@ -532,23 +831,31 @@ def main_histories(ctx, r, n_hist, n_big):
             if 'error' in spec or [strip_req(x) for x in spec['rets']] != exp or spec['state'] != sorted([k, v] for k, v in m.items()):
                 out.disagreement('Lean specification (MapStore) differs from the Python dict model', dict(replay, ops=ops, reply=short(spec, 2000)))
         # S3
-        rets, info = real_s3(ops_s3, ps, s3_variant)
+        rets, info = real_s3(ops_s3, ps, s3_variant, clock)
         if info['sig_failures']:
             out.count('s3:signature-rejected', len(info['sig_failures']))
+        if info['time_failures']:
+            out.count('s3:timestamp-rejected', len(info['time_failures']))
         out.count('s3:requests', info['requests'])
+        count_s3_time(out, info)
         for x in rets:
             if 'requests' in x:
                 out.count('s3:list-pages:' + ('1' if x['requests'] == 1 else '2' if x['requests'] == 2 else '3' if x['requests'] == 3 else '4+'))
-        check_adapter(ctx, 'S3', 's3', ops_s3, rets, info, ask_history(ctx.drv, 's3', ops_s3, ps=ps), replay)
+        check_adapter(ctx, 'S3', 's3', ops_s3, rets, info, ask_s3(ctx.drv, ops_s3, ps, info), replay, note=lambda i: describe_time(ops_s3, i, info, clock),
+                      rerun=lambda o: real_s3(o, ps, s3_variant, clock))
         # B2
-        rets, info = real_b2(ops_b2, ps, token_uses, restricted=r.random() < 0.3)
+        rets, info = real_b2(ops_b2, ps, token_uses, restricted=r.random() < 0.3, clock=clock)
         out.count('b2:requests', info['requests'])
         out.count('b2:authorizations', info['tokens'])
+        if info['aged_out']:
+            out.count('b2:histories-outliving-a-token(24h)')
+            out.count('b2:requests-with-aged-out-token', info['aged_out'])
         for x in rets:
             if 'requests' in x:
                 out.count('b2:list-pages:' + ('1' if x['requests'] == 1 else '2' if x['requests'] == 2 else '3' if x['requests'] == 3 else '4+'))
         # with expiring tokens a list request may be repeated after re-authentication: compare page counts only without expiry
-        check_adapter(ctx, 'B2', 'b2', ops_b2, rets, info, ask_history(ctx.drv, 'b2', ops_b2, ps=ps), replay, compare_requests=token_uses is None)
+        check_adapter(ctx, 'B2', 'b2', ops_b2, rets, info, ask_history(ctx.drv, 'b2', ops_b2, ps=ps), replay,
+                      compare_requests=token_uses is None and not info['aged_out'])
         # local
         rets, info = real_local(ops_local, spelling, ctx.newdir())
         ok = check_adapter(ctx, 'local (%s)' % spelling, 'local', ops_local, rets, info,
@@ -566,6 +873,77 @@ def main_histories(ctx, r, n_hist, n_big):
                 i = first_diff([strip_req(x) for x in rets], [strip_req(x) for x in rets2])
                 out.violation('local:root-spelling-dependence', f'the same history returns different values under root spellings {spelling!r} and {sp2!r} (operation #{i})',
                               dict(replay, adapter='local', ops=ops_local, spelling_b=sp2, index=i))
+
+
+# ------------------------------------------------------------------------------------------------ one adapter object across a date change, systematically
+def clock_sweep(ctx, r, reps):
+    """Seed-independent part of the clock dimension: for every kind of calendar boundary, both S3 adapters and a small and a large page
+    size, ONE adapter object makes three calls before the UTC date changes and then every kind of call after it (and, second
+    variant, the clock moves at every reading so that the change falls inside the listing).  Oracle and tie as for the main histories."""
+    out = ctx.out
+    for k in range(reps):
+        for kind in BOUNDARIES:
+            for variant in ('s3c', 's3'):
+                a, b, c = (''.join(r.choice('abcdefgh') for _ in range(r.randint(2, 4))) + s for s in ('1', '2', '3'))
+                d1, d2, d3 = (r.randbytes(r.randint(0, 40)).hex() for _ in range(3))
+                ops = [{'op': 'upload', 'name': f'{a}/{b}', 'data': d1}, {'op': 'upload', 'name': f'{a}/{c}', 'data': d2}, {'op': 'exists', 'name': f'{a}/{b}'},
+                       {'op': 'exists', 'name': f'{a}/{b}'}, {'op': 'list', 'prefix': f'{a}/'}, {'op': 'download', 'name': f'{a}/{c}'},
+                       {'op': 'download_stream', 'name': f'{a}/{b}', 'chunk': 7, 'sink': '00ff'},
+                       {'op': 'upload_stream', 'name': f'{c}', 'data': d3, 'chunk': 7}, {'op': 'delete', 'name': f'{a}/{c}'}, {'op': 'list', 'prefix': ''}]
+                inside = (k + (variant == 's3')) % 2 == 1
+                ps = 1 if inside else r.choice([1, 2, 1000])
+                bnd = BOUNDARIES[kind](r)
+                if inside:       # 3 readings before the listing; readings at -7, -5, -3 s; the two requests of the listing are made at 23:59:59 and 00:00:01
+                    clock = {'class': 'sweep:' + kind + ':inside-listing', 'start': (bnd - _dt.timedelta(seconds=7)).isoformat(), 'step': 2, 'offset': 0}
+                    for o in ops:
+                        o['at'], o['jit'] = 0, 0
+                    ops = ops[:3] + ops[4:]
+                else:
+                    clock = {'class': 'sweep:' + kind, 'start': (bnd - _dt.timedelta(seconds=3)).isoformat(), 'step': 0, 'offset': 0}
+                    for i, o in enumerate(ops):
+                        o['at'], o['jit'] = (i if i < 3 else i + 1), 0
+                rets, info = real_s3(ops, ps, variant, clock)
+                out.evaluations += 1
+                out.count('clock-sweep:' + kind + (':inside-listing' if inside else ''))
+                count_s3_time(out, info)
+                replay = {'kind': 'history', 'page_size': ps, 's3_variant': variant, 'clock': clock}
+                check_adapter(ctx, 'S3', 's3', ops, rets, info, ask_s3(ctx.drv, ops, ps, info), replay, note=lambda i: describe_time(ops, i, info, clock),
+                              rerun=lambda o: real_s3(o, ps, variant, clock))
+
+
+def clock_skew_ties(ctx, r, n):
+    """The hypothesis of `s3_timed_history_refines` from both sides: a client whose clock is off by less than the service's window behaves
+    like the map (oracle + tie); one whose clock is off by more has every request refused — that is the service's rule, not a defect of
+    the adapter, so there the Lean model's prediction (`forbidden`, nothing stored) is compared and no oracle is applied."""
+    out = ctx.out
+    for _ in range(n):
+        a, b = (''.join(r.choice('abcdefgh') for _ in range(r.randint(2, 4))) for _ in range(2))
+        ops = [{'op': 'upload', 'name': f'{a}/{b}', 'data': r.randbytes(r.randint(0, 9)).hex()}, {'op': 'exists', 'name': f'{a}/{b}'},
+               {'op': 'list', 'prefix': r.choice(['', a])}, {'op': 'download', 'name': f'{a}/{b}'}, {'op': 'delete', 'name': f'{a}/{b}'}]
+        r.shuffle(ops)
+        off = r.choice([-1, 1]) * r.choice([120, 899, 901, 1500, 3600, 86400, 40000])
+        inside = abs(off) <= S3_SKEW
+        for i, o in enumerate(ops):
+            o['at'], o['jit'] = i * r.choice([0, 1, 30]), 0
+        start = BOUNDARIES['midnight'](r) - _dt.timedelta(seconds=r.choice([0, 1, 2, 40, 4000, 50000]))
+        clock = {'class': 'client-clock-off:' + ('inside-window' if inside else 'outside-window'), 'start': start.isoformat(), 'step': 0, 'offset': off}
+        ps = r.choice([1, 2, 1000])
+        rets, info = real_s3(ops, ps, 's3c', clock)
+        out.evaluations += 1
+        out.count('clock-skew:' + ('inside-window' if inside else 'outside-window'))
+        replay = {'kind': 'history', 'page_size': ps, 's3_variant': 's3c', 'clock': clock}
+        if info['times'] is None:
+            out.count('clock:not-intercepted(adapter reads the time some other way; history run on the machine clock)')
+            continue
+        if inside:
+            check_adapter(ctx, 'S3', 's3', ops, rets, info, ask_s3(ctx.drv, ops, ps, info), replay, note=lambda i: describe_time(ops, i, info, clock))
+        elif ctx.drv is not None:
+            model = ask_s3(ctx.drv, ops, ps, info)
+            if 'error' in model or model['rets'] != rets or model['state'] != info['state']:
+                out.disagreement('s3: a client clock outside the service\'s window — model and implementation differ',
+                                 dict(replay, adapter='s3', ops=ops, model=short(model, 1500), impl=short(rets, 1500)))
+            else:
+                out.traces_validated += 1
 
 
 # ------------------------------------------------------------------------------------------------ frontier probes
@@ -920,17 +1298,23 @@ def run(out, drv, info):
     quick = out.tier == 'quick'
     ctx = Ctx(out, drv)
     out.rule = ('history = random operation sequence (upload, upload_stream, delete, exists, download, download_stream, list) over a generated name universe in which no name is '
-                'a directory prefix of another (segments from printable ASCII, tricky literals and non-ASCII), run on the three real adapters (page size 1/2/3/1000, every '
-                'root spelling, B2 token expiry) and on the Lean models; non-trivial = ≥ 6 operations, ≥ 2 distinct uploaded names, ≥ 1 listing and ≥ 1 delete; distinct = hash of '
+                'a directory prefix of another (segments from printable ASCII, tricky literals and non-ASCII), run on ONE long-lived object of each of the three real adapters '
+                '(page size 1/2/3/1000, every root spelling, B2 token expiry by use count and by age) under a generated clock schedule (same day / across midnight, month end, '
+                'leap day, year end at a chosen operation / inside one call / hours and days apart / client clock off and jittering; the fake S3 checks x-amz-date against its own '
+                'clock) and on the Lean models (S3: with the clock readings); non-trivial = ≥ 6 operations, ≥ 2 distinct uploaded names, ≥ 1 listing and ≥ 1 delete; distinct = hash of '
                 '(universe, operations, page size, spelling)')
     out.assumptions = ['the fake S3 / B2 services (harness/impl/fake_s3.py, fake_b2.py) follow the published protocols; server-side atomicity of PUT / upload is assumed',
                        'the operating system resolves every spelling of the repository location to the same directory; no symbolic links inside the repository',
                        'httpx, pathlib, os.path, xml.etree behave as modelled (validated by the differential runs only)',
                        'object names: non-empty segments, none equal to "." or ".."; local: no name ends in ".tmp" and no name is a directory prefix of another; B2: none of ? # % + \\ in names',
-                       'B2 download of a name that is not live is excluded (unbounded re-authentication recursion, D9 / property C12)']
+                       'B2 download of a name that is not live is excluded (unbounded re-authentication recursion, D9 / property C12)',
+                       'the adapter\'s and the S3 service\'s clocks agree to within the service\'s 15-minute window (outside it every request is refused: compared with the model, no oracle); '
+                       'the adapter reads the time through the datetime / time names of its module (otherwise the history runs on the machine clock and is counted as not intercepted)']
     try:
         r = rng_for(out.seed, 'C13')
         main_histories(ctx, r, 220 if quick else 3000, 4 if quick else 40)
+        clock_sweep(ctx, rng_for(out.seed, 'C13-clock-sweep'), 2 if quick else 20)
+        clock_skew_ties(ctx, rng_for(out.seed, 'C13-clock-skew'), 24 if quick else 400)
         frontier_probes(ctx, rng_for(out.seed, 'C13-probes'), 3 if quick else 12)
         atomic_upload_observations(ctx, rng_for(out.seed, 'C13-atomic'), 60 if quick else 1500)
         loop_ties(ctx, rng_for(out.seed, 'C13-loops'), 150 if quick else 2500)
@@ -951,22 +1335,25 @@ def replay(path, drv):
     scratch = WORK / str(os.getpid()) / 'c13-replay'
     try:
         if kind in ('history', 'probe'):
-            ops, adapter = rp['ops'], rp['adapter']
-            if adapter == 's3':
-                rets, _ = real_s3(ops, rp.get('page_size', rp.get('ps', 2)), rp.get('s3_variant', 's3c'))
-            elif adapter == 'b2':
-                rets, _ = real_b2(ops, rp.get('page_size', rp.get('ps', 2)), rp.get('b2_token_uses'))
-            else:
-                rets, _ = real_local(ops, rp['root_spelling'], scratch)
-            m = {}
-            exp = [dict_step(m, op) for op in ops]
-            got = [strip_req(x) for x in rets]
-            i = first_diff(exp, got)
-            if i is None:
-                print('replay: every return value equals the map')
-                return 0
-            print(f'replay: operation #{i} {short(ops[i])}\n  observed {short(got[i])}\n  expected {short(exp[i])}')
-            return 1
+            adapter = rp['adapter']
+            rc = 0
+            for title, ops in [('history', rp['ops'])] + ([('minimised history', rp['minimised']['ops'])] if 'minimised' in rp else []):
+                if adapter == 's3':
+                    rets, _ = real_s3(ops, rp.get('page_size', rp.get('ps', 2)), rp.get('s3_variant', 's3c'), rp.get('clock'))
+                elif adapter == 'b2':
+                    rets, _ = real_b2(ops, rp.get('page_size', rp.get('ps', 2)), rp.get('b2_token_uses'), clock=rp.get('clock'))
+                else:
+                    rets, _ = real_local(ops, rp['root_spelling'], scratch)
+                m = {}
+                exp = [dict_step(m, op) for op in ops]
+                got = [strip_req(x) for x in rets]
+                i = first_diff(exp, got)
+                if i is None:
+                    print(f'replay ({title}, {len(ops)} operations): every return value equals the map')
+                else:
+                    print(f'replay ({title}, {len(ops)} operations): operation #{i} {short(ops[i])}\n  observed {short(got[i])}\n  expected {short(exp[i])}')
+                    rc = 1
+            return rc
         if kind == 's3loop':
             pages = [(p[0], [tuple(e) for e in p[1]]) for p in rp['pages']]
             real = real_s3_loop(pages, 12)
